@@ -7,6 +7,7 @@ Import ListNotations.
 
 Section Top.
 
+Variable fold : ascii -> ascii.
 Variable m : term -> string -> nat -> option nat.
 Variable cok : list term -> bool.
 Variable text : string.
@@ -41,20 +42,20 @@ Qed.
 
 (* the keyword rule, gathered *)
 Theorem unless_keyword L X v :
-  (tre X = false -> report m L X v = tname X) /\
-  ((forall K, keyword_of m L X K -> str_full K v = false) -> report m L X v = tname X) /\
+  (tre X = false -> report fold m L X v = tname X) /\
+  ((forall K, keyword_of m L X K -> str_full fold K v = false) -> report fold m L X v = tname X) /\
   (forall pre K post, tre X = true -> L = pre ++ K :: post -> keyword_of m L X K ->
-     str_full K v = true ->
-     (forall K', In K' pre -> keyword_of m L X K' -> str_full K' v = false) ->
-     report m L X v = tname K) /\
-  (report m L X v <> tname X ->
-     exists K, report m L X v = tname K /\ tre X = true /\ keyword_of m L X K /\ str_full K v = true) /\
-  (forall K, str_full K v = true <->
-     if ci_of K then lower_str (tvalue K) = lower_str v else tvalue K = v).
+     str_full fold K v = true ->
+     (forall K', In K' pre -> keyword_of m L X K' -> str_full fold K' v = false) ->
+     report fold m L X v = tname K) /\
+  (report fold m L X v <> tname X ->
+     exists K, report fold m L X v = tname K /\ tre X = true /\ keyword_of m L X K /\ str_full fold K v = true) /\
+  (forall K, str_full fold K v = true <->
+     if ci_of K then fold_str fold (tvalue K) = fold_str fold v else tvalue K = v).
 Proof.
   split; [apply report_string|]. split; [apply report_no_keyword|].
   split; [intros; eapply report_keyword; eauto|]. split; [|intros; apply str_full_spec].
-  intros Hne. destruct (report_inv m L X v) as [E|(Hre & K & E & Hk & Hf)]; [congruence|].
+  intros Hne. destruct (report_inv fold m L X v) as [E|(Hre & K & E & Hk & Hf)]; [congruence|].
   exists K. auto.
 Qed.
 
